@@ -36,7 +36,7 @@ def record(job):
             nl -= 1
         if t.type in KINDS and t.map is not None:
             e = {"k": "t", "ty": t.type, "map": list(t.map), "cl": [], "mk": C.cps(t.markup), "info": C.cps(t.info),
-                 "start": 1, "finfo": [], "nq": nq, "nl": nl}
+                 "start": 1, "finfo": [], "nq": nq, "nl": nl, "fin": 1 if t.content.endswith("\n") else 0}
             if t.type in ("code_block", "fence", "html_block"):
                 c = t.content
                 body = c[:-1] if c.endswith("\n") else c
@@ -52,7 +52,7 @@ def record(job):
             nq += 1
         if t.type == "list_item_open":
             nl += 1
-    return {"lines": [C.cps(x) for x in lines], "ev": ev}, len(ev)
+    return {"lines": [C.cps(x) for x in lines], "endnl": 1 if norm.endswith("\n") else 0, "ev": ev}, len(ev)
 
 
 def span_record(job):
@@ -70,7 +70,7 @@ def span_record(job):
                 spans.append(c.content)
     e = {"k": "cs", "n": n, "body": body, "has": 1 if len(spans) == 1 else 0,
          "content": C.cps(spans[0]) if len(spans) == 1 else []}
-    return {"lines": [], "ev": [e]}
+    return {"lines": [], "endnl": 1, "ev": [e]}
 
 
 _SM = []
@@ -110,8 +110,20 @@ def build_jobs(tier, rep):
                     d = first + "\n" + second + ("\n" if second else "")
                     jobs.append((cfgs[k % 3], d))
                     k += 1
+    # a verbatim block of three lines inside each container prefix (the closing line carries the same prefix)
+    must = []
+    for c in conts + ["-\t> ", "> -\t", "1.\t>\t", ">\t>\t", " >\t", "  > \t"]:
+        pad = " " * len(c.expandtabs(4)) if c.lstrip().startswith(("-", "1")) else c
+        if c.lstrip().startswith(("-", "1")) and ">" in c:
+            pad = "\t" + c[c.index(">"):] if "\t" in c else " " * c.index(">") + c[c.index(">"):]
+        for ind in inds:
+            for o, cl in (("```", "```"), ("~~~~", "~~~~"), ("<div>", "</div>"), ("<pre>", "</pre>"), ("    c", "")):
+                for tail in ("\n", ""):
+                    must.append((cfgs[k % 3], c + o + "\n" + pad + ind + "abc" + "\n" + pad + cl + tail))
+                    k += 1
     if q and len(jobs) > 380000:
         jobs = gen.sample(jobs, 380000, C.SEED + 1)
+    jobs += must
     rep.cov["bounds"] = {"L1": len(l1), "with_verbatim_or_markup_shapes": len(pool), "executed": len(jobs)}
     rep.cov["exhaustive"] = False
     return jobs
